@@ -29,6 +29,7 @@ type PrintOpts struct {
 	ClsEsc    int    // same for class characters
 	CodeStyle int    // spelling of code block bodies (see codeStyles)
 	InitCode  string // initializer content override
+	CodeBody  string // code block text override ("{...}") for every block
 }
 
 // codeStyles are block bodies exercising the code block lexer: nested
@@ -136,6 +137,9 @@ func Print(g *Grammar, o *PrintOpts) string {
 func blockBody(e *Expr, o *PrintOpts) string {
 	if e.Code != "" {
 		return e.Code
+	}
+	if o != nil && o.CodeBody != "" {
+		return o.CodeBody
 	}
 	if o != nil && o.CodeStyle > 0 && o.CodeStyle < len(codeStyles) {
 		return codeStyles[o.CodeStyle]
